@@ -936,8 +936,12 @@ def oracleC09 (p : Parsed) (fs : List (String × String)) : Option String :=
         match o.serverEnveloper with
         | some se =>
           let (frames, whole) := framesAndRest (writes.length + 1) writes
+          -- bytes the backend writes behind a complete end-of-stream frame are not part of the stream
+          let endSeen := frames.any fun f => match se.decodeFlags f.1 with
+            | some fl => fl.1
+            | none => false
           if !statusOk then none
-          else if !whole then some "response stream is cut inside an envelope or message"
+          else if !whole && !endSeen then some "response stream is cut inside an envelope or message"
           else if frames.any (fun f => (se.decodeFlags f.1).isNone) then some "response envelope carries illegal flags"
           else none
         | none => none
